@@ -47,42 +47,71 @@ let op_gen t =
   let u8 v = M.Z.modulo v (z_of_int 256) and u16 v = M.Z.modulo v (z_of_int 65536) in
   let zi i = z_of_string t.(i) in
   let wf_extras = List.map (fun (n, b) -> (u8 n, b)) extras in
-  let tagged (g : M.gobj) (spec : z list) =
-    let g' = List.fold_left (fun g e -> match e with Some (n, b) -> M.g_add g n b | None -> M.mk g.M.g_hdr g.M.g_fixed M.tags_empty) g all_ex in
+  (* S:<hex> / C:<n> = the object's own setter (SSID: beacon, probe response; channel: also the two responses) called after creation *)
+  let ops_ex = List.filter_map (fun i ->
+      let o = t.(i) in
+      if o.[0] = 'A' then Some (`Add (parse_extra o)) else if o = "X" then Some `Strip
+      else if o.[0] = 'S' && S.length o >= 2 && o.[1] = ':' then Some (`Ssid (cstr (S.sub o 2 (S.length o - 2))))
+      else if o.[0] = 'C' && S.length o >= 2 && o.[1] = ':' then Some (`Chan (u8 (z_of_string (S.sub o 2 (S.length o - 2)))))
+      else None) (List.init (max 0 (nt - 13)) (fun i -> 12 + i)) in
+  let has_set = List.exists (fun e -> match e with `Ssid _ | `Chan _ -> true | _ -> false) ops_ex in
+  let tagged (g : M.gobj) (spec : (z * z list) list -> z list) =
+    let setop g (o : M.tag_op) = match M.step g.M.g_tags o with M.Done (tg, _) -> M.mk g.M.g_hdr g.M.g_fixed tg | _ -> g in
+    let g' = List.fold_left (fun g e -> match e with
+        | `Add (n, b) -> M.g_add g n b
+        | `Strip -> M.mk g.M.g_hdr g.M.g_fixed M.tags_empty
+        | `Ssid s -> setop g (M.OpSetSsid s)
+        | `Chan c -> setop g (M.OpSetChannel c)) g ops_ex in
     let len = int_of_z (M.g_length g') in
     let model = "gen 0" ^ dump_str len (M.g_dump g') btok in
-    (* the reference encoding of a stripped object: header and fixed parameters of the model object, then the elements added after the strip *)
-    let spec = if not stripped then spec else
-      let rec after l acc = match l with [] -> List.rev acc | None :: r -> after r [] | Some e :: r -> after r (e :: acc) in
-      g.M.g_hdr @ g.M.g_fixed @ List.concat (List.map (fun (n, b) -> [u8 n; z_of_int (List.length b)] @ b) (after all_ex [])) in
+    let enc1 (n, b) = [u8 n; z_of_int (List.length b)] @ b in
+    let spec =
+      if not stripped && not has_set then spec wf_extras else begin
+        (* reference: the encoding of the creation arguments, its elements as a list, then each later step on the LIST (Spec's spec_step) *)
+        let base = spec [] in
+        let hf = List.length g.M.g_hdr + List.length g.M.g_fixed in
+        let rec drop n l = if n = 0 then l else match l with [] -> [] | _ :: r -> drop (n - 1) r in
+        let rec take n l = if n = 0 then [] else match l with [] -> [] | x :: r -> x :: take (n - 1) r in
+        let rec parse l = match l with
+          | n :: ln :: r -> let k = int_of_z ln in (n, take k r) :: parse (drop k r)
+          | _ -> [] in
+        let l0 = parse (drop hf base) in
+        let stepl l (o : M.tag_op) = match M.spec_step M.c_TAG_SSID M.c_TAG_DS_PARAMETER l o with Some (l', _) -> l' | None -> l in
+        let l = List.fold_left (fun l e -> match e with
+            | `Add (n, b) -> stepl l (M.OpAdd (u8 n, b))
+            | `Strip -> []
+            | `Ssid s -> stepl l (M.OpSetSsid s)
+            | `Chan c -> stepl l (M.OpSetChannel c)) l0 ops_ex in
+        take hf base @ List.concat (List.map enc1 l)
+      end in
     let slen = List.length spec in
     let specl = "gen 0" ^ dump_str slen (fun bl -> if int_of_z bl < slen then M.Err M.Z0 else M.Ok spec) btok in
     model ^ " ## " ^ specl in
   match k with
   | "beacon" -> let s = cstr t.(5) and ch = u8 (zi 6) in
-    tagged (M.create_beacon a1 a2 a3 s ch now) (M.s_beacon a1 a2 a3 s ch now wf_extras)
+    tagged (M.create_beacon a1 a2 a3 s ch now) (fun ex -> M.s_beacon a1 a2 a3 s ch now ex)
   | "probe_resp" -> let s = cstr t.(5) and ch = u8 (zi 6) in
-    tagged (M.create_probe_resp a1 a2 a3 s ch now) (M.s_probe_resp a1 a2 a3 s ch now wf_extras)
+    tagged (M.create_probe_resp a1 a2 a3 s ch now) (fun ex -> M.s_probe_resp a1 a2 a3 s ch now ex)
   | "probe_req" -> let s = cstr t.(5) and ch = u8 (zi 6) in
-    tagged (M.create_probe_req a1 a2 a3 s ch) (M.s_probe_req a1 a2 a3 s ch wf_extras)
+    tagged (M.create_probe_req a1 a2 a3 s ch) (fun ex -> M.s_probe_req a1 a2 a3 s ch ex)
   | "assoc_req" -> let s = cstr t.(5) and ch = u8 (zi 6) in
-    tagged (M.create_assoc_req a1 a2 a3 s ch) (M.s_assoc_req a1 a2 a3 s ch wf_extras)
+    tagged (M.create_assoc_req a1 a2 a3 s ch) (fun ex -> M.s_assoc_req a1 a2 a3 s ch ex)
   | "reassoc_req" -> let s = cstr t.(5) and ch = u8 (zi 6) and ap = mac t.(7) in
-    tagged (M.create_reassoc_req a1 a2 a3 ap s ch) (M.s_reassoc_req a1 a2 a3 ap s ch wf_extras)
+    tagged (M.create_reassoc_req a1 a2 a3 ap s ch) (fun ex -> M.s_reassoc_req a1 a2 a3 ap s ch ex)
   | "assoc_resp" -> let ch = u8 (zi 6) in
-    tagged (M.create_assoc_resp a1 a2 a3 ch) (M.s_assoc_resp a1 a2 a3 ch wf_extras)
+    tagged (M.create_assoc_resp a1 a2 a3 ch) (fun ex -> M.s_assoc_resp a1 a2 a3 ch ex)
   | "reassoc_resp" -> let ch = u8 (zi 6) in
-    tagged (M.create_reassoc_resp a1 a2 a3 ch) (M.s_reassoc_resp a1 a2 a3 ch wf_extras)
+    tagged (M.create_reassoc_resp a1 a2 a3 ch) (fun ex -> M.s_reassoc_resp a1 a2 a3 ch ex)
   | "auth" -> let a = u16 (zi 5) and b = u16 (zi 6) and c = u16 (zi 7) in
-    tagged (M.create_auth a1 a2 a3 a b c) (M.s_auth a1 a2 a3 a b c wf_extras)
-  | "deauth" -> let r = u16 (zi 5) in tagged (M.create_deauth a1 a2 a3 r) (M.s_deauth a1 a2 a3 r wf_extras)
-  | "disassoc" -> let r = u16 (zi 5) in tagged (M.create_disassoc a1 a2 a3 r) (M.s_disassoc a1 a2 a3 r wf_extras)
+    tagged (M.create_auth a1 a2 a3 a b c) (fun ex -> M.s_auth a1 a2 a3 a b c ex)
+  | "deauth" -> let r = u16 (zi 5) in tagged (M.create_deauth a1 a2 a3 r) (fun ex -> M.s_deauth a1 a2 a3 r ex)
+  | "disassoc" -> let r = u16 (zi 5) in tagged (M.create_disassoc a1 a2 a3 r) (fun ex -> M.s_disassoc a1 a2 a3 r ex)
   | "timing_ad" ->
     let cap = u8 (zi 5) and tv = padded 10 t.(6) and te = padded 5 t.(7) and tu = padded 1 t.(8) and co = padded 3 t.(9) in
     let mr = u16 (zi 10) in
     let (mt, tus, nf) = Scanf.sscanf t.(11) "%d,%d,%d" (fun a b c -> (u8 (z_of_int a), u8 (z_of_int b), u8 (z_of_int c))) in
     tagged (M.create_timing_advert a1 a2 a3 cap tv te tu co mr mt tus nf now)
-      (M.s_timing_advert a1 a2 a3 cap tv te tu co mr mt tus nf now wf_extras)
+      (fun ex -> M.s_timing_advert a1 a2 a3 cap tv te tu co mr mt tus nf now ex)
   | "action" | "action_noack" ->
     let noack = k <> "action" in
     let details = List.filter_map (fun i -> if t.(i).[0] = 'D' then Some (bytes_of_hex (S.sub t.(i) 2 (S.length t.(i) - 2))) else None)
